@@ -1,13 +1,13 @@
 import Reduino.Driver.Util
 import Reduino.Lang.AssemblePins
-/- `pins|N|<setup items>|<loop items>` — an item is `d:kind:name:p1,p2,…` / `u:name` / `s:tag`; the answer is the pin-level
+/- `pins|N|<setup items>|<loop items>` — an item is `d:kind:name:p1,p2,…` (kind `buttonin` = Button with mode INPUT) / `u:name` / `s:tag` / `a:lcdname` (animate); the answer is the pin-level
    event list of `setup(); loop() × N`, phases separated by `|` -/
 namespace Reduino.Driver
 open Reduino.Lang
 
 def pinsKind? : String → Option AssemblePins.Kind
   | "led" => some .led | "rgb" => some .rgb | "servo" => some .servo | "motor" => some .motor | "buzzer" => some .buzzer
-  | "button" => some .button | "pot" => some .pot | "ultra" => some .ultra | "lcd" => some .lcd | "serial" => some .serial
+  | "button" => some .button | "buttonin" => some .buttonIn | "pot" => some .pot | "ultra" => some .ultra | "lcd" => some .lcd | "serial" => some .serial
   | _ => none
 
 def pinsItem? (w : String) : Option AssemblePins.Item :=
@@ -15,6 +15,7 @@ def pinsItem? (w : String) : Option AssemblePins.Item :=
   | ["d", k, nm, ps] => do some (.decl (← pinsKind? k) nm ((ps.splitOn ",").filter (· ≠ "") |>.map String.toNat!))
   | ["u", nm] => some (.use nm)
   | ["s", t] => some (.stmt t.toNat!)
+  | ["a", nm] => some (.animate nm)
   | _ => none
 
 def pinsMode : AssemblePins.Mode → String
@@ -31,6 +32,8 @@ def pinsEv : AssemblePins.Ev → String
   | .lcdWrite n => "lw:" ++ n
   | .stmt t => s!"s:{t}"
   | .poll n p => s!"p:{n}:{p}"
+  | .animStart n => "as:" ++ n
+  | .tick n => "tk:" ++ n
 
 def handlePins (fields : List String) : Option String :=
   match fields with
